@@ -986,7 +986,9 @@ func (req *IdpAuthnRequest) getSPEncryptionCert() (*x509.Certificate, error) {
 	certStr := ""
 	for _, keyDescriptor := range req.SPSSODescriptor.KeyDescriptors {
 		if keyDescriptor.Use == "encryption" {
-			certStr = keyDescriptor.KeyInfo.X509Data.X509Certificates[0].Data
+			if len(keyDescriptor.KeyInfo.X509Data.X509Certificates) != 0 {
+				certStr = keyDescriptor.KeyInfo.X509Data.X509Certificates[0].Data
+			}
 			break
 		}
 	}
